@@ -115,6 +115,10 @@ __CPROVER_ensures(fRawBytesAvail == __CPROVER_old(fRawBytesAvail) || ((fEncoding
    UCS-4 (after the BOM, if any, was removed): 4 octets per character, value <= 0xFFFF */
 __CPROVER_ensures((!verif_thrown && IS_UCS4) ==> (fRawBufIndex == 4 * NDEC && (G < NDEC ==> (fCharBuf[G] == UCS4_AT(4 * G) && UCS4_AT(4 * G) <= 0xFFFF && fCharSizeBuf[G] == 4))))
 /* UTF-16: 2 octets per character, after an optional byte-order mark */
+/* C05 (added by the lead): a UTF-16 byte order mark is stepped over for EVERY entity that has one (however short: '<a/>' is
+   10 bytes), and nothing is skipped when there is none */
+__CPROVER_ensures((!verif_thrown && IS_UTF16 && ((fRawByteBuf[0] == 0xFE && fRawByteBuf[1] == 0xFF) || (fRawByteBuf[0] == 0xFF && fRawByteBuf[1] == 0xFE))) ==> fRawBufIndex >= 2)
+__CPROVER_ensures((!verif_thrown && IS_UTF16 && NDEC == 0 && !((fRawByteBuf[0] == 0xFE && fRawByteBuf[1] == 0xFF) || (fRawByteBuf[0] == 0xFF && fRawByteBuf[1] == 0xFE))) ==> fRawBufIndex == 0)
 __CPROVER_ensures((!verif_thrown && IS_UTF16 && NDEC > 0) ==> ((fRawBufIndex == 2 * NDEC || fRawBufIndex == 2 + 2 * NDEC) && (G < NDEC ==> (fCharBuf[G] == UTF16_AT(fRawBufIndex - 2 * NDEC + 2 * G) && fCharSizeBuf[G] == 2))))
 /* UTF-8 / ASCII-compatible: 1 octet per character, all < 0x80, after an optional 3-octet byte-order mark */
 __CPROVER_ensures((!verif_thrown && fEncoding == XMLRecognizer_UTF_8 && NDEC > 0) ==> ((fRawBufIndex == NDEC || fRawBufIndex == 3 + NDEC) && (G < NDEC ==> (fCharBuf[G] == RAW8(fRawBufIndex - NDEC + G) && fCharBuf[G] < 0x80 && fCharSizeBuf[G] == 1))))
